@@ -341,7 +341,8 @@ pub struct DeckCase {
     pub deck: u8,
     pub play_loops: u8,
     /// host call made while the deck is in that state: 0 save_snapshot(SNA), 1 load_screen(SCR),
-    /// 2 execute_poke, 3 set_fast_load on and off, 4 set_sound off and on, 5 set_ay_enabled, 6 none
+    /// 2 execute_poke, 3 set_fast_load on and off, 4 set_sound off and on, 5 set_ay_enabled, 6 none,
+    /// 7 load_snapshot (a SNA of the very memory the machine holds)
     pub host_call: u8,
     pub sp: u16,
     /// the emulator is created with fast loading enabled (the deck is a deck all the same: PLAY
@@ -407,7 +408,7 @@ pub fn check_deck(c: &DeckCase, rec: &mut Rec) -> Result<(), String> {
     }
     let level = read(&mut e)?;
     mach::set_regs(&mut e, &RegFile { pc: 0x8010, sp, ..Default::default() });
-    let call = c.host_call % 7;
+    let call = c.host_call % 8;
     match call {
         0 => {
             let mut file = Vec::new();
@@ -432,6 +433,22 @@ pub fn check_deck(c: &DeckCase, rec: &mut Rec) -> Result<(), String> {
             e.set_sound(true);
         }
         5 => e.set_ay_enabled(true),
+        7 => {
+            use crate::formats::sna;
+            let regs = RegFile { pc: 0x8010, sp, im: 1, ..Default::default() };
+            let file = if machine == Machine::K48 {
+                let mut ram = mm.ram.clone();
+                let mut r = regs.clone();
+                r.sp = sp.wrapping_sub(2);
+                let so = (r.sp - 0x8000) as usize;
+                ram[1][so] = 0x10;
+                ram[1][so + 1] = 0x80;
+                sna::write_48k(&sna::SnaState { regs: r, border: 1, latch: 0, is_128k: false }, &ram)
+            } else {
+                sna::write_128k(&sna::SnaState { regs, border: 1, latch: 0, is_128k: true }, &mm.ram)
+            };
+            e.load_snapshot(rustzx_core::host::Snapshot::Sna(MemAsset::new(file))).map_err(|x| format!("load_snapshot: {:?}", x))?;
+        }
         _ => {}
     }
     // (load_screen parks the CPU in a loop it writes at 0x8000: put the sampling stub back)
@@ -447,7 +464,7 @@ pub fn check_deck(c: &DeckCase, rec: &mut Rec) -> Result<(), String> {
             prev = b;
         }
     }
-    let names = ["save_snapshot(SNA)", "load_screen", "execute_poke", "set_fast_load on/off", "set_sound off/on", "set_ay_enabled", "nothing"];
+    let names = ["save_snapshot(SNA)", "load_screen", "execute_poke", "set_fast_load on/off", "set_sound off/on", "set_ay_enabled", "nothing", "load_snapshot(SNA)"];
     if c.deck % 3 == 2 {
         if toggles < 5 {
             return Err(format!("the deck is playing (host call in between: {}): 40 EAR samples about 3000 T-states apart show only {} level changes, the pilot tone changes level every 2168 T-states", names[call as usize], toggles));
@@ -471,7 +488,7 @@ pub fn check_deck(c: &DeckCase, rec: &mut Rec) -> Result<(), String> {
 }
 
 pub fn deck_strategy() -> impl Strategy<Value = DeckCase> {
-    (prop_oneof![Just(crate::host::Machine::K48), Just(crate::host::Machine::K128)], 0u8..3, any::<u8>(), 0u8..7, any::<u16>())
+    (prop_oneof![Just(crate::host::Machine::K48), Just(crate::host::Machine::K128)], 0u8..3, any::<u8>(), 0u8..8, any::<u16>())
         .prop_map(|(machine, deck, play_loops, host_call, sp)| DeckCase { machine, deck, play_loops, host_call, sp, fastload: sp % 2 == 1 })
 }
 
@@ -490,7 +507,7 @@ pub fn replay(run: &mut Run, phase: &str, case: &serde_json::Value) -> Result<()
 }
 
 pub const LEVEL: &str = "exploration";
-pub const RULE: &str = "histories: case = tape of 1..2 short data blocks x history of 1..25 commands over {play, stop, rewind, advance n T-states} with n from 1 to 12 M so that commands land mid-pilot, mid-sync, mid-byte, in the pause and after the end, incl. stop-stop-play, play-play and rewind while playing/stopped; the pulse generator is driven through the hook re-export in steps of 1..16 T; the tape asset delivers everything at once or in short reads, and in a fifth of the cases the host has consumed the first bytes of the file before handing it over and starts with a rewind. Oracle: deck model — no EAR edge while stopped; the edge stream over *playing time* is cut at every rewind and after every complete pass, and each piece must be a prefix of the nominal waveform of the whole tape (clean pilot of the right length, sync, every bit pulse within nominal..nominal+32, pauses), so blocks appear once and in order and a stop/play pair neither loses nor repeats a pulse; a new pass after the end needs a play command. long-block-histories: the same oracle over tapes of 1..3 blocks of 0..420 bytes (lengths around the 128-byte multiples of the read buffer of the player, data and header flags), histories of 1..17 commands with advances that land inside the data bytes, steps of 7/13/16 T. deck-and-other-host-calls (emulator level): with the deck never started, stopped after playing, or playing, the host calls one of save_snapshot(SNA), load_screen, execute_poke, set_fast_load, set_sound, set_ay_enabled; the level read right after STOP must be the level read just before it (bracketed by a read after the next PLAY), and 40 EAR samples over the next 120000 T-states must show a frozen level unless the deck is playing (then the pilot tone must be seen). non-trivial = history with a stop->play resume, a double stop, a play after end-of-tape or a rewind after playing started, and at least one edge observed; distinct = hash of the case";
+pub const RULE: &str = "histories: case = tape of 1..2 short data blocks x history of 1..25 commands over {play, stop, rewind, advance n T-states} with n from 1 to 12 M so that commands land mid-pilot, mid-sync, mid-byte, in the pause and after the end, incl. stop-stop-play, play-play and rewind while playing/stopped; the pulse generator is driven through the hook re-export in steps of 1..16 T; the tape asset delivers everything at once or in short reads, and in a fifth of the cases the host has consumed the first bytes of the file before handing it over and starts with a rewind. Oracle: deck model — no EAR edge while stopped; the edge stream over *playing time* is cut at every rewind and after every complete pass, and each piece must be a prefix of the nominal waveform of the whole tape (clean pilot of the right length, sync, every bit pulse within nominal..nominal+32, pauses), so blocks appear once and in order and a stop/play pair neither loses nor repeats a pulse; a new pass after the end needs a play command. long-block-histories: the same oracle over tapes of 1..3 blocks of 0..420 bytes (lengths around the 128-byte multiples of the read buffer of the player, data and header flags), histories of 1..17 commands with advances that land inside the data bytes, steps of 7/13/16 T. deck-and-other-host-calls (emulator level): with the deck never started, stopped after playing, or playing, the host calls one of save_snapshot(SNA), load_snapshot(SNA), load_screen, execute_poke, set_fast_load, set_sound, set_ay_enabled; the level read right after STOP must be the level read just before it (bracketed by a read after the next PLAY), and 40 EAR samples over the next 120000 T-states must show a frozen level unless the deck is playing (then the pilot tone must be seen). non-trivial = history with a stop->play resume, a double stop, a play after end-of-tape or a rewind after playing started, and at least one edge observed; distinct = hash of the case";
 pub const ASSUMPTIONS: &[&str] = &[
     "a change of the idle EAR level caused by rewind itself is not counted as a waveform edge",
     "first phase: tapes are short (pilot lengths dominate cost) with data-flag blocks only; long blocks and header-flag blocks are in the second phase with fewer cases",
